@@ -19,6 +19,7 @@ structure Sess where
   it  : DList.Iter := {}
   zit : DList.ZipIter := {}
   sit : LSeq.Cursor := {}
+  defaultMode : Bool := false   -- built by the default constructor: the C library allocator cannot be refused
 
 def fmtPtr (n : Nat) : Ptr → String
   | none => "-"
@@ -189,7 +190,8 @@ def iterStep (s : Sess) (c : Cmd) (m : Mem) : Sess × String × String :=
 
 /-- returns the new session, the spec line and the model line -/
 def step (s : Sess) (c : Cmd) : Sess × String × String :=
-  let m := s.mem.begin c.sched
+  let s := if c.op == "new_default" then { s with defaultMode := true } else s
+  let m := s.mem.begin (if s.defaultMode then [] else c.sched)
   let k := c.nat "o" 0
   let from_ := c.nat "from" 1
   let to := c.nat "to" 1
